@@ -1,4 +1,5 @@
 import CloakModel.Props.C02Heap
+import CloakModel.Gen.Backlog
 
 /-! # The array heap IS the abstract out-of-order store (C02): proof of `C02Heap.c02_heap_bridge_full`
 
@@ -11,6 +12,10 @@ set_option linter.unusedVariables false
 
 namespace C02Heap
 open GoHeap RB HeapCore
+
+/-- the ways out of `streamBuffer.Write` are the five of the models (`RB.write`, `GoHeap.writeH`): fast path closing / stored, the
+stale-frame refusal (the only error), the drain loop's closing frame, the end — no other refusal of a frame (seed C02-6) -/
+theorem gen_write_exits : Gen.Backlog.sbWriteReturns = 5 ∧ Gen.Backlog.sbWriteErrorReturns = 1 := by decide
 
 theorem ins_perm (f : Frame) : ∀ l : List Frame, (ins f l).Perm (f :: l)
   | [] => List.Perm.refl _
